@@ -238,6 +238,14 @@ func c05RunPath(sql, path string, rows []Row, expect int) *c05PathOut {
 		}
 		return out
 	case "sink":
+		// a faulty synchronous sink registered first panics on every second result: sinks are isolated from each
+		// other, the recording sink behind it still receives every result
+		var calls int64
+		s.AddSyncSink(func([]map[string]any) {
+			if atomic.AddInt64(&calls, 1)%2 == 0 {
+				panic("c05: faulty sink")
+			}
+		})
 		s.AddSyncSink(out.Rec.add)
 	case "chan":
 		ch := s.ToChannel()
